@@ -9,6 +9,7 @@ use serde::{Deserialize, Serialize};
 use std::collections::HashMap;
 use std::sync::{Arc, Mutex};
 
+use super::multi::{self, Multi};
 use super::sm9util::*;
 use crate::engine::*;
 use crate::gen;
@@ -145,6 +146,8 @@ pub enum Tamper {
     OtherMessage,
     OtherIdentity,
     OtherMasterKey,
+    /// a multi-byte alteration (see props/multi.rs) of the 32 big-endian bytes of h
+    MultiH(Multi),
 }
 
 #[derive(Serialize, Deserialize, Hash, Debug, Clone)]
@@ -185,6 +188,14 @@ fn check_tamper(c: &TCase) -> CaseResult {
             s_ref = if pr.g1.on_curve(&q) { Some(q.clone()) } else { None };
             s_lib = lib_g1(&q, &BigUint::one());
             class = "flip-S";
+        }
+        Tamper::MultiH(mm) => {
+            let mut hb = to32(&h0);
+            if !multi::apply(&mut hb, mm) {
+                return pass(false, "multi-noop");
+            }
+            h = from_be(&hb);
+            class = "multi-h";
         }
         Tamper::SetH(i) => {
             let edges = [BigUint::zero(), BigUint::one(), n - 1u32, n.clone(), n + 1u32, (BigUint::one() << 256) - 1u32, &h0 + 1u32, &h0 - 1u32, n - 2u32];
@@ -313,6 +324,7 @@ pub fn tamper_strategy() -> impl Strategy<Value = Tamper> {
         1 => Just(Tamper::OtherIdentity),
         1 => Just(Tamper::OtherMasterKey),
         1 => Just(Tamper::None),
+        5 => multi::strategy().prop_map(Tamper::MultiH),
     ]
 }
 
@@ -330,7 +342,7 @@ pub fn run(ctx: &Ctx) {
     ctx.set_rule(
         "signing cases are (ks, identity, message, r): ks from a small pool (so that the reference pairing g = e(P1,Ppub-s) is cached) and the edge-biased generator, identities of 0..64 bytes, messages of 0..1024 bytes, r injected through the RNG hook; \
          tampering cases are (reference-made signature, tampering): every bit flip of h (256) and of the 64 bytes of S (512) for some bases, h in {0, 1, N-2, N-1, N, N+1, 2^256-1, h+-1}, S in {-S, S+P1, [2]S, another identity's S, off-curve, (0,0), infinity, \
-         the same S with another Z (not an alteration)}, another message / identity / master public key. Oracles: exact (h, S) equality with the reference signer for the same r; h in [1,N-1], S on the curve; the library accepts its own and the reference's signatures; \
+         the same S with another Z (not an alteration)}, multi-byte alterations of h that preserve the xor, the sum or the multiset of its bytes or words, another message / identity / master public key. Oracles: exact (h, S) equality with the reference signer for the same r; h in [1,N-1], S on the curve; the library accepts its own and the reference's signatures; \
          for tamperings the reference verifier decides and a panic is a violation. Non-trivial: fixed-r comparison done, or a rejected tampering.",
     );
     ctx.assume("reference signer/verifier (harness/src/refimpl/sm9.rs) reproduce the GM/T 0044.5 Annex A (h, S)");
@@ -382,6 +394,18 @@ pub fn run(ctx: &Ctx) {
             }
             for i in (((seed as usize + bi) % step)..512).step_by(step) {
                 v.push(TCase { base: b.clone(), tamper: Tamper::FlipS(i as u16) });
+            }
+        }
+        v
+    }, check_tamper);
+
+    let nbm = ctx.tier.pick(1usize, 6usize);
+    let dense = ctx.tier.pick(false, true);
+    ctx.exhaustive("h_multi_byte_alterations", "alterations of h that keep the xor, the sum or the multiset of its bytes or words (byte pairs at word distances in the quick tier, all pairs in the thorough tier, x 3 masks; sum-preserving pairs, rotations, word shuffles, partial keeps, 60 replacements) — a folded or partial comparison of h2 with h accepts them", move || {
+        let mut v = Vec::new();
+        for b in fixed_bases(seed ^ 0x66, nbm) {
+            for m in multi::family(32, dense, 60) {
+                v.push(TCase { base: b.clone(), tamper: Tamper::MultiH(m) });
             }
         }
         v
